@@ -295,7 +295,7 @@ func RunC16(s *kernel.Sim) *World {
 		}
 		var lastEnd time.Duration = c.callT
 		led, abortsByOthers, inFlight := 0, 0, false
-		var shortLimit time.Duration = -1 // a led request cut off by a timeout well before five minutes
+		var shortLimit time.Duration = -1 // a led request cut off by a timeout before it was given any time at all (< 1 s; how long the safety limit is below five minutes is the implementation's business)
 		for _, n := range c.names {
 			for _, r := range lookupReqs[n] {
 				if r.StartT > end || (r.End != 0 && r.EndT < c.callT) {
@@ -316,7 +316,7 @@ func RunC16(s *kernel.Sim) *World {
 					if c.deadline == 0 && dur > 5*time.Minute+time.Second {
 						w.Fail("limit", "caller %d (%q, no deadline) led a request that was still unanswered after %v: no five-minute safety limit", c.id, c.names, dur)
 					}
-					if c.deadline == 0 && r.End != 0 && isCtxErrText(r.Err) && dur < 5*time.Minute-time.Second {
+					if c.deadline == 0 && r.End != 0 && isCtxErrText(r.Err) && dur < time.Second {
 						shortLimit = dur
 					}
 				} else if isCtxErrText(r.Err) {
@@ -330,8 +330,9 @@ func RunC16(s *kernel.Sim) *World {
 		// (no failure by proxy, second form) After somebody else's flight was
 		// aborted the caller starts over on its own, and then it is a caller
 		// like any other: with no deadline and a live context its own request
-		// gets the safety limit, not what is left of a budget the other
-		// caller's flight used up.
+		// gets a safety limit of its own, not the nothing that is left of a
+		// budget the other caller's flight used up. Only the zero-budget case
+		// is judged: a shorter limit than five minutes is allowed.
 		if c.done && shortLimit >= 0 && abortsByOthers > 0 && c.ctx.Err() == nil && c.err != nil {
 			w.Fail("proxy", "caller %d (%q, no deadline, context live) joined a flight that another caller's context aborted, started over, and its own request was cut off after %v: failed because of the other caller's cancellation",
 				c.id, c.names, shortLimit)
